@@ -155,11 +155,12 @@ def _verbatim(ctx, loader):
         loop = K.enclosing_for(graph, node)
         names = set(['presence_time', 'placement_time'])
         mine = N.raw_only(facts[node])
-        le = [f for f in mine if f.key[0] == 'cmp' and
+        every = list(facts[node])
+        le = [f for f in every if f.key[0] == 'cmp' and
               f.key[1] in ('<=', '<') and sorted(
                   t for t, _c in f.key[2]) == sorted(names) and
               dict(f.key[2])['presence_time'] > 0]
-        tr = [f for f in mine if f.key[0] == 'truth' and f.key[2] and
+        tr = [f for f in every if f.key[0] == 'truth' and f.key[2] and
               f.key[1] == 'presence_time' or f.key[0] == 'is' and
               not f.key[3] and f.key[1] == 'presence_time']
         def benign(f):
@@ -221,9 +222,15 @@ def _stamp_source(func, value, stamp, want, defs):
                 continue
             for idx, stmt in enumerate(body):
                 if not (isinstance(stmt, ast.Assign) and
-                        stmt.value is value and idx > 0):
+                        stmt.value is value):
                     continue
-                prev = body[idx - 1]
+                if idx > 0:
+                    prev = body[idx - 1]
+                elif field == 'orelse' and isinstance(block, ast.Try) and \
+                        block.body:
+                    prev = block.body[-1]       # try: read  else: convert
+                else:
+                    continue
                 if not (isinstance(prev, ast.Assign) and
                         isinstance(prev.targets[0], ast.Tuple) and
                         len(prev.targets[0].elts) == 2 and
